@@ -21,7 +21,7 @@ from engine.runner import Ob
 PROPERTY = "C03"
 LEVEL = "model_checking"
 ASSUMPTIONS = [
-    "E2 bound: free ASCII strings (code points 0..127) |s|<=3 (quick) / <=4 (thorough); structured strings x+SEQ+y with |x|,|y|<=1 free and "
+    "E2 bound: free ASCII strings (code points 0..127) |s|<=3 (quick) / <=5 (thorough); thorough also every pair (escape sequence + proper suffix of one) with a free character on either side; structured strings x+SEQ+y with |x|,|y|<=1 free and "
     "SEQ ranging over every escape-table sequence, its proper prefixes/suffixes, '%'+two hex digits and '~'+each entity letter; array "
     "capacity CAP and recursion depth are checked by side conditions / unwinding assertions (reaching one = inconclusive)",
     "urllib.parse.quote/unquote replaced by models (E2: ASCII; E1: full UTF-8 arithmetic model) - validated against the real functions on "
@@ -31,7 +31,7 @@ ASSUMPTIONS = [
     "the rest of the grammar (how a whole query is split) is outside the claim (C02)",
     "the translation itself is validated each run by pushing the repository's own test tokens and all strings of length <=2 over the "
     "structural alphabet through both the real functions and the encoding (disagreement = inconclusive: translator)",
-    "E1 additionally runs the real `_parameter_parse_action` on the tokens the rule produces for the encoded text (tokenisation by a 15-line harness function using the live entity outputs); E1 bound: every Unicode scalar |s|<=1 (thorough: |s|<=2 over class representatives); token lists of <=2 commands x <=3 tokens",
+    "E1 additionally runs the real `_parameter_parse_action` on the tokens the rule produces for the encoded text (tokenisation by a 15-line harness function using the live entity outputs); E1 bound: every Unicode scalar |s|<=1 (thorough: also |s|=2 with the first scalar below U+0800 and any second scalar); token lists of <=2 commands with <=2 argument tokens in total",
     "unpaired surrogates are not scalars (quote raises) and are outside the claim; longer free strings are outside the claim",
 ]
 EXPLANATION = "single-query SMT encoding of the codec regenerated from source + CrossHair for Unicode and the list wrappers"
@@ -106,6 +106,9 @@ def _e2(spec, build_s, N, CAP, label):
     bad = None
     nval = 0
     for t in s["corpus"]:
+        if not concrete_ok(t):
+            # the corpus strings are also checked directly on the real functions (cheap; they include the instance's own skeleton)
+            return dict(verdict="refuted", cex={"s": t}, message=["corpus string violates the property on the real functions"], paths=max(nq, 1), reached=max(nq, 1), decisions=0)
         sol.push()
         sol.add(S.eq_b(s["b"], S.B.const(cx, t)))
         r = sol.check()
@@ -492,10 +495,10 @@ def obligations(tier):
         obs.append(Ob("ob_unicode", dict(n=1, cls=c), timeout=280 if q else 1800, per_path=30,
                       bounds="E1: every Unicode scalar in U+%04X..U+%04X, |s|=1 (arithmetic quote/unquote models)" % CLASSES[c]))
     if not q:
-        for c in range(len(CLASSES)):
+        for c in (0, 1):      # (first scalar in the 3- and 4-byte classes: > 4 000 paths, not exhausted in 50 CPU-minutes - left out)
             obs.append(Ob("ob_unicode", dict(n=2, cls=c), timeout=3000, per_path=60,
                           bounds="E1: |s|=2, first scalar in U+%04X..U+%04X, second any scalar" % CLASSES[c]))
-    for shape in ([[0], [1]] if q else [[0], [1], [2], [3], [1, 1], [2, 1], [1, 2]]):
+    for shape in ([[0], [1]] if q else [[0], [1], [2], [1, 1]]):       # three argument tokens: ~10 000 paths, not exhausted - left out
         obs.append(Ob("ob_lists", dict(shape=shape), timeout=280 if q else 3000, per_path=30,
                       bounds="E1: decode(encode(ql)) == ql and ActionRequest encoders; commands with %s argument tokens over 12 atoms + one free ASCII char" % shape))
     return obs
